@@ -201,7 +201,12 @@ func (g mapGenerator) EmitNodeMethodLookupByNode(w io.Writer) {
 		func (n {{ .Type | TypeSymbol }}) LookupByNode(k datamodel.Node) (datamodel.Node, error) {
 			k2, ok := k.({{ .Type.KeyType | TypeSymbol }})
 			if !ok {
-				panic("todo invalid key type error")
+				// Not a node of our own key type: go by its string form, as LookupByString and the struct nodes do.
+				ks, err := k.AsString()
+				if err != nil {
+					return nil, schema.ErrInvalidKey{TypeName: "{{ .PkgName }}.{{ .Type.Name }}", Key: k, Reason: err}
+				}
+				return n.LookupByString(ks)
 				// 'schema.ErrInvalidKey{TypeName:"{{ .PkgName }}.{{ .Type.Name }}", Key:&_String{k}}' doesn't quite cut it: need room to explain the type, and it's not guaranteed k can be turned into a string at all
 			}
 			v, exists := n.m[*k2]
